@@ -106,14 +106,16 @@ theorem tie_stmt_pmt_streams (b : Bytes) (src : Option Nat) :
   | panic m => rfl
   | ok pil =>
     simp only [R.ok_bind]
+    -- whichever way round the source writes the bounds test
     by_cases hg : 4 + pil > b.length
     · have hsub : Slice.sub ⟨b, src⟩ 0 0 = .ok ⟨[], src.map (· + 0)⟩ := by unfold Slice.sub sliceR; simp
       have hm : sliceR b 0 0 = .ok [] := by unfold sliceR; simp
-      simp only [hg, decide_true, if_true, hsub, hm, R.ok_bind, R.pure_eq]
+      have hg' : ¬ 4 + pil ≤ b.length := by omega
+      simp only [hg, hg', decide_true, decide_false, Bool.false_eq_true, if_true, if_false, hsub, hm, R.ok_bind, R.pure_eq]
       exact tie_stmt_stream_iter _ [] _
     · have hle : 4 + pil ≤ b.length := by omega
-      simp only [hg, decide_false, Bool.false_eq_true, if_false, from_ok ⟨b, src⟩ _ hle, sliceFrom_ok b _ hle,
-        R.ok_bind, R.pure_eq]
+      simp only [hg, hle, decide_true, decide_false, Bool.false_eq_true, if_true, if_false, from_ok ⟨b, src⟩ _ hle,
+        sliceFrom_ok b _ hle, R.ok_bind, R.pure_eq]
       exact tie_stmt_stream_iter _ _ _
 
 end Ts.Props.Ties.StmtPmt
